@@ -200,6 +200,10 @@ type Interp struct {
 	extraScopes int
 	pathStart   time.Time
 	vnow        int64
+	lockHist    []lockRecord
+	eagerSmallRem bool
+	inPure      bool
+	pureTabs    map[string][]*Term
 }
 
 type Config struct {
